@@ -25,6 +25,11 @@ Ccy == "CHF"
 \* a charge is included in the amount it stands next to (a detail's, or the entry's own when it has no details);
 \* figures = TRUE: the statement also shows the amount before charges (AmtDtls) - what the other party got is the
 \* same either way, amount minus charge
+\* incl = FALSE (a detail's) / chargeincl = FALSE (the entry's own): the charge record says the charge is NOT part of
+\* the amount it stands next to; and an entry that has both details and a charge of its own.  For these the
+\* property fixes less: the account still moves by exactly the detail's (entry's) amount and the transaction still
+\* balances, but how the rest is divided between the counter posting and Expenses:Commissions is okane's choice
+\* (`loose`): a different division is not a violation of conservation.
 Signed(cd, v) == IF cd = "CRDT" THEN v ELSE DecNeg(v)
 RECURSIVE SumAmt(_, _)
 SumAmt(ds, i) == IF i > Len(ds) THEN DZero ELSE DecAdd(IF ds[i].rev THEN DecNeg(ds[i].amt) ELSE ds[i].amt, SumAmt(ds, i + 1))
@@ -35,20 +40,23 @@ Closing(opening, es) == DecAdd(opening, Net(es, 1))
 
 \* ---------------------------------------------------------------- expected ledger (entries oldest first)
 Flip(cd) == IF cd = "CRDT" THEN "DBIT" ELSE "CRDT"
-Txn(e, cd, amt, charge, ref) ==
-  [day |-> e.vday, eday |-> IF e.bday = e.vday THEN 0 ELSE e.bday, code |-> ref,
+Txn(e, cd, amt, charge, ref, loose) ==
+  [day |-> e.vday, loose |-> loose, eday |-> IF e.bday = e.vday THEN 0 ELSE e.bday, code |-> ref,
    src |-> Signed(cd, amt),                          \* the account posting
    charge |-> charge,                                \* Expenses:Commissions posting (0 = none)
-   dest |-> DecNeg(Signed(cd, DecSub(amt, charge))),     \* counter posting: what the other party got
+   \* counter posting: what the other party got or gave - the account's movement with the charge taken out
+   \* (a debit of 10.50 with a charge of 0.50 pays 10.00; a credit of 250 net of a charge of 5 was a payment of 255)
+   dest |-> DecNeg(DecAdd(Signed(cd, amt), charge)),
    assert |-> NoD]
 TxnsOfEntry(e, k) ==
-  IF e.details = <<>> THEN <<Txn(e, e.cd, e.amt, e.charge, "")>>
-  ELSE [j \in 1..Len(e.details) |-> Txn(e, IF e.details[j].rev THEN Flip(e.cd) ELSE e.cd, e.details[j].amt, e.details[j].charge,
-                                        IF e.sameref THEN "R" \o ToString(k) ELSE "R" \o ToString(k) \o "-" \o ToString(j))]
+  IF e.details = <<>> THEN <<Txn(e, e.cd, e.amt, e.charge, "", ~e.chargeincl)>>
+  ELSE [j \in 1..Len(e.details) |-> Txn(e, IF e.details[j].rev THEN Flip(e.cd) ELSE e.cd, e.details[j].amt, DecAdd(e.details[j].charge, e.charge),
+                                        IF e.sameref THEN "R" \o ToString(k) ELSE "R" \o ToString(k) \o "-" \o ToString(j),
+                                        ~e.details[j].incl \/ ~DecIsZero(e.charge))]
 RECURSIVE Flatten(_, _)
 Flatten(es, k) == IF k > Len(es) THEN <<>> ELSE TxnsOfEntry(es[k], k) \o Flatten(es, k + 1)
 
-OpeningTxn(opening) == [day |-> 0, eday |-> 0, code |-> "", src |-> DZero, charge |-> DZero, dest |-> DZero, assert |-> opening]
+OpeningTxn(opening) == [day |-> 0, loose |-> FALSE, eday |-> 0, code |-> "", src |-> DZero, charge |-> DZero, dest |-> DZero, assert |-> opening]
 Expected(opening, es) ==
   LET ts == Flatten(es, 1)
       n == Len(ts)
